@@ -1,6 +1,7 @@
 package main
 
 import (
+	"bytes"
 	"errors"
 	"fmt"
 	"io"
@@ -596,13 +597,19 @@ func (run *wRun) exec(c *rux.Context, a *wAct) {
 		}
 	case "write":
 		b, _ := parseDataOK(f[1])
-		acc, _ := script(b, f[2], f[3])
+		acc, fail := script(b, f[2], f[3])
 		run.exp.write(b, acc)
 		var n int
 		var err error
-		if f[4] == "1" {
+		switch {
+		case f[4] == "1":
 			n, err = io.WriteString(c.Resp, string(b))
-		} else {
+		case f[4] == "2" && len(b) > 0 && acc == len(b) && !fail:
+			// io.Copy from a source that is a plain io.Reader (no WriteTo): one Write of the data on the unchanged rux
+			var n64 int64
+			n64, err = io.Copy(c.Resp, struct{ io.Reader }{bytes.NewReader(b)})
+			n = int(n64)
+		default:
 			n, err = c.Resp.Write(b)
 		}
 		res = fmt.Sprintf("wrote %d %s", n, b2s(err != nil))
@@ -1131,6 +1138,24 @@ func (e writerEngine) Gen(r *Rand, tier string) Case {
 		}
 	}
 	ops, wxTag := wxStream(r, ops, k)
+	// copy stream (drawn last; one case in five): fully accepted non-empty writes go through io.Copy from a plain
+	// io.Reader (`via` 2), the way Stream / static file handlers write a body
+	if r.Chance(1, 5) {
+		n := 0
+		for i, op := range ops {
+			f := strings.Fields(op)
+			if len(f) == 6 && f[0] == "write" && f[2] != "nil" && f[2] != "-" && f[4] == "0" {
+				if acc, ok := parseNatOK(f[3]); ok && acc >= len(f[2])/2 && len(f[2]) > 0 && r.Chance(2, 3) {
+					f[5] = "2"
+					ops[i] = strings.Join(f, " ")
+					n++
+				}
+			}
+		}
+		if n > 0 {
+			wxTag += "+copy"
+		}
+	}
 	return Case{Ops: ops, Tag: stream + wxTag}
 }
 
